@@ -77,6 +77,8 @@ func init() {
 			"each render under recover + watchdog; a panic counts when its innermost non-runtime frame is in /repo; non-trivial = every case (distinct by template+values)"
 		vals := c13Values()
 		hanging := map[string]bool{}
+		var held *dyntpl.Ctx
+		held = dyntpl.NewCtx()
 		run := func(kind, name, src string, names []string, vs []c13Val) {
 			if hanging[name] {
 				r.Dist["skipped_after_timeout"]++
@@ -101,9 +103,24 @@ func init() {
 				return
 			}
 			ctx := dyntpl.NewCtx()
+			reused := false
+			if kind == "fuzz" && held != nil && r.Rng.Intn(2) == 0 {
+				// a context that has already rendered other templates (loops, includes, regions…) and was Reset
+				ctx, reused = held, true
+				ctx.Reset()
+				desc["context"] = "reused after Reset (it rendered earlier fuzz templates)"
+				r.Dist["reused_context"]++
+			}
 			c13Setup(ctx, names, vs)
 			res := renderWatch(key, ctx, 1500*time.Millisecond)
 			r.Dist["result:"+strings.SplitN(res.ErrStr(), ":", 2)[0]]++
+			if kind == "fuzz" {
+				held = ctx
+				if res.Timeout || res.Panic != "" {
+					held = nil // may still be in use by the abandoned render / in an undefined state
+				}
+			}
+			_ = reused
 			if res.Timeout {
 				hanging[name] = true
 				r.Violate(sig+" timeout", "render did not return within 1.5 s (unbounded computation)", desc)
@@ -227,7 +244,17 @@ func init() {
 			for _, n := range names {
 				if r.Rng.Intn(3) > 0 {
 					ns = append(ns, n)
-					vs = append(vs, pick(r, vals))
+					v := pick(r, vals)
+					// the kinds the templates were written for, half of the time: loops have elements to iterate
+					if r.Rng.Intn(2) == 0 {
+						switch n {
+						case "user":
+							v = c13Val{"user", (UserSpec{Id: "7", Name: "N", HasFinance: true, History: []History{{DateUnix: 1, Cost: 2.5, Comment: "c<1>"}, {DateUnix: 2, Cost: 0, Comment: ""}}}).Build()}
+						case "lst", "list":
+							v = c13Val{"strs", []string{"a", "b", "c"}}
+						}
+					}
+					vs = append(vs, v)
 				}
 			}
 			run("fuzz", "tpl", src, ns, vs)
